@@ -42,8 +42,10 @@ fn gen_probe(r: &mut Rng, names: &[String]) -> V {
     V::Array(args)
 }
 
-fn hostile_bytes(r: &mut Rng) -> Vec<u8> {
-    match r.below(12) {
+const HOSTILE_KINDS: u64 = 16;
+fn hostile_bytes(r: &mut Rng) -> Vec<u8> { let k = r.below(HOSTILE_KINDS); hostile_kind(r, k) }
+fn hostile_kind(r: &mut Rng, kind: u64) -> Vec<u8> {
+    match kind {
         0 => b"*9223372036854775807\r\n".to_vec(),
         1 => b"%18446744073709551615\r\n".to_vec(),
         2 => b"~99999999999\r\n".to_vec(),
@@ -55,6 +57,12 @@ fn hostile_bytes(r: &mut Rng) -> Vec<u8> {
         8 => b"*1000000000\r\n".to_vec(),
         9 => { let mut v = vec![]; for _ in 0..40 { v.extend_from_slice(b"%1\r\n"); } v }
         10 => b"\x00\x00\x00\x00".to_vec(),
+        // every recursive position of every aggregate, far beyond any stack: array element, set member,
+        // map key, map value (after a scalar key), and random mixtures of the four
+        11 => { let mut v = vec![]; for _ in 0..60000 { v.extend_from_slice(b"%1\r\n+k\r\n"); } v }
+        12 => { let mut v = vec![]; for _ in 0..100000 { v.extend_from_slice(b"~1\r\n"); } v }
+        13 => { let mut v = vec![]; for _ in 0..100000 { v.extend_from_slice(b"%1\r\n"); } v }
+        14 => { let mut v = vec![]; for _ in 0..60000 { v.extend_from_slice(match r.below(5) { 0 => &b"*1\r\n"[..], 1 => &b"~1\r\n"[..], 2 => &b"%1\r\n"[..], 3 => &b"%1\r\n:1\r\n"[..], _ => &b"*2\r\n$1\r\nx\r\n"[..] }); } v }
         _ => { let alpha = b"+-:$*_#,%~0123456789\r\nPING"; (0..(1 + r.below(60))).map(|_| *r.pick(alpha)).collect() }
     }
 }
@@ -64,6 +72,8 @@ pub fn gen(seed: u64, n: usize, _tier: &str) -> Vec<Case> {
     let names: Vec<String> = dispatch_names().into_iter().filter(|x| !EXCLUDED.contains(&x.as_str())).collect();
     let mut cases = vec![];
     let per = 40;
+    // every hostile family once, whatever the seed
+    cases.push(Case { id: "hostile-all".to_string(), ops: (0..HOSTILE_KINDS).map(|k| vec![b("PROBERAW"), bv(&hostile_kind(&mut r, k))]).collect(), outs: vec![] });
     for id in 0..(n / per).max(1) {
         let mut ops = vec![];
         for _ in 0..per {
